@@ -575,8 +575,11 @@ Definition match_agrees (f : comp_filter) (o : cobj) (ob : mobs) : bool :=
     its contract (otherwise nothing can be said and the model decides):
     a verdict must be the RFC's; an error is acceptable only where a time value
     under a time range cannot be read; a panic only on an object without data
-    (which is what Match documents). *)
-Definition match_spec_ok (f : comp_filter) (o : cobj) (ob : mobs) : bool :=
+    (which is what Match documents).
+    This is the STRICT reading, which also fixes what the statement leaves open
+    (a time range on a component that is not an event: the code's "false"); the
+    oracle uses the relaxed [match_spec_ok] below, which the strict one implies. *)
+Definition match_spec_strict (f : comp_filter) (o : cobj) (ob : mobs) : bool :=
   match o_data o with
   | None => match ob with MPanic => true | _ => false end
   | Some c =>
@@ -615,8 +618,9 @@ Definition obj_nil (o : cobj) : bool :=
 
 (** ... and of Filter: exactly the matching objects in input order, unmodified; all
     of them for a nil query; an error only if some object has an unreadable time
-    value under a time range; a panic only if some object has no data. *)
-Definition filter_spec_ok (q : option comp_filter) (os : list cobj) (ob : fobs) : bool :=
+    value under a time range; a panic only if some object has no data.
+    (The strict reading, see [match_spec_strict].) *)
+Definition filter_spec_strict (q : option comp_filter) (os : list cobj) (ob : fobs) : bool :=
   match q with
   | None =>
     match ob with FOk tags unmod => ln_eqb (map o_tag os) tags && unmod | _ => false end
@@ -629,3 +633,130 @@ Definition filter_spec_ok (q : option comp_filter) (os : list cobj) (ob : fobs) 
          end
     else filter_agrees q os ob
   end.
+
+(** * The specification as far as the statement goes: three-valued
+
+    The statement says when a time range holds "for an event" and "for a recurring
+    event".  About a time range on a component that is not a VEVENT (VTODO,
+    VJOURNAL, VFREEBUSY, VALARM, X-...) it says nothing: neither the code's
+    "false" nor RFC 4791's table for that component type contradicts it.  There the
+    specification's value is [U3] (unconstrained); it is combined upwards by
+    Kleene's strong conjunction and disjunction, so that the verdict on the object
+    is [U3] exactly when it depends on an unconstrained part.  is-not-defined and
+    property filters never depend on a component time range: they stay boolean. *)
+Inductive tv3 := T3 | F3 | U3.
+
+Definition tv_of_bool (b : bool) : tv3 := if b then T3 else F3.
+Definition and3 (a b : tv3) : tv3 :=
+  match a, b with
+  | F3, _ | _, F3 => F3
+  | T3, T3 => T3
+  | _, _ => U3
+  end.
+Definition or3 (a b : tv3) : tv3 :=
+  match a, b with
+  | T3, _ | _, T3 => T3
+  | F3, F3 => F3
+  | _, _ => U3
+  end.
+Definition forall3 {A} (g : A -> tv3) : list A -> tv3 :=
+  fix go (l : list A) : tv3 := match l with [] => T3 | x :: rest => and3 (g x) (go rest) end.
+Definition exists3 {A} (g : A -> tv3) : list A -> tv3 :=
+  fix go (l : list A) : tv3 := match l with [] => F3 | x :: rest => or3 (g x) (go rest) end.
+
+(** [admits v b]: the boolean verdict [b] is one the three-valued specification allows *)
+Definition admits (v : tv3) (b : bool) : bool :=
+  match v with U3 => true | T3 => b | F3 => negb b end.
+
+Definition is_event (c : comp) : bool := String.eqb (c_name c) "VEVENT".
+
+Definition time_range3 (s e : option Z) (c : comp) : tv3 :=
+  if is_event c then tv_of_bool (rfc4791_time_range s e c) else U3.
+
+Fixpoint holds3 (f : comp_filter) (c : comp) {struct f} : tv3 :=
+  match f with
+  | CF _ _ s e props comps =>
+    and3 (if has_range s e then time_range3 s e c else T3)
+      (and3 (forall3 (fun cf =>
+               if cf_nd cf
+               then tv_of_bool (negb (existsb (named (cf_name cf)) (c_children c)))
+               else exists3 (fun ch => if named (cf_name cf) ch then holds3 cf ch else F3) (c_children c))
+             comps)
+            (tv_of_bool (forallb (fun pf => rfc4791_prop pf c) props)))
+  end.
+
+Definition scope3 (f : comp_filter) (l : list comp) : tv3 :=
+  if cf_nd f
+  then tv_of_bool (negb (existsb (named (cf_name f)) l))
+  else exists3 (fun ch => if named (cf_name f) ch then holds3 f ch else F3) l.
+
+Definition rfc3_comp (f : comp_filter) (c : comp) : tv3 := scope3 f [c].
+
+(** Errors.  As for events (an unreadable value under a time range, wherever the
+    evaluation order puts it), an error is also acceptable where a time range meets
+    a component that is not an event and one of the time values RFC 4791's tables
+    for the other component types read cannot be read. *)
+Definition other_time_unreadable (c : comp) : bool :=
+  existsb (fun p =>
+      (existsb (String.eqb (p_name p)) ["DTSTART"; "DTEND"; "DUE"; "COMPLETED"; "CREATED"]
+       && match p_time p with TBad => true | _ => false end)
+      || (String.eqb (p_name p) "DURATION" && match p_dur p with DBad => true | _ => false end))
+    (c_props c).
+
+Definition err_allowed (f : comp_filter) (c : comp) : bool :=
+  negb (times_ok f c)
+  || existsb (fun tc => negb (is_event (snd tc)) && other_time_unreadable (snd tc)) (tr_pairs f c).
+
+(** The relaxed verdict on an observation of Match (what the oracle applies). *)
+Definition match_spec_ok (f : comp_filter) (o : cobj) (ob : mobs) : bool :=
+  match o_data o with
+  | None => match ob with MPanic => true | _ => false end
+  | Some c =>
+    if rset_ok f c
+    then match ob with
+         | MOk b => admits (rfc3_comp f c) b
+         | MErr => err_allowed f c
+         | MPanic => false
+         end
+    else match_agrees f o ob
+  end.
+
+Definition obj_verdict3 (f : comp_filter) (o : cobj) : tv3 :=
+  match o_data o with Some c => rfc3_comp f c | None => F3 end.
+Definition obj_err_allowed (f : comp_filter) (o : cobj) : bool :=
+  match o_data o with Some c => err_allowed f c | None => false end.
+
+(** [sel_ok f os tags]: [tags] is an order-preserving selection of [os] that holds every
+    object the specification requires, none it excludes, and any of the unconstrained *)
+Fixpoint sel_ok (f : comp_filter) (os : list cobj) (tags : list N) : bool :=
+  match os with
+  | [] => match tags with [] => true | _ => false end
+  | o :: rest =>
+    let v := obj_verdict3 f o in
+    match tags with
+    | t :: tags' =>
+      (N.eqb t (o_tag o) && admits v true && sel_ok f rest tags')
+      || (admits v false && sel_ok f rest tags)
+    | [] => admits v false && sel_ok f rest []
+    end
+  end.
+
+Definition filter_spec_ok (q : option comp_filter) (os : list cobj) (ob : fobs) : bool :=
+  match q with
+  | None =>
+    match ob with FOk tags unmod => ln_eqb (map o_tag os) tags && unmod | _ => false end
+  | Some f =>
+    if forallb (obj_rset_ok f) os
+    then match ob with
+         | FOk tags unmod => sel_ok f os tags && unmod
+         | FErr => existsb (obj_err_allowed f) os
+         | FPanic => existsb obj_nil os
+         end
+    else filter_agrees q os ob
+  end.
+
+(** What the model's result looks like as an observation. *)
+Definition mobs_of_res (r : res bool) : mobs :=
+  match r with Ok b => MOk b | Err _ => MErr | Panic => MPanic end.
+Definition fobs_of_res (r : res (list cobj)) : fobs :=
+  match r with Ok l => FOk (map o_tag l) true | Err _ => FErr | Panic => FPanic end.
